@@ -1171,6 +1171,9 @@ class ClientObservation:
     class _Iterator:
         def __init__(self):
             self._future = asyncio.get_running_loop().create_future()
+            # Error that ends the iteration, held back while the latest item
+            # has not been consumed yet
+            self._pending_error = None
 
         def push(self, item):
             if self._future.done():
@@ -1180,8 +1183,12 @@ class ClientObservation:
 
         def push_err(self, e):
             if self._future.done():
-                self._future = asyncio.get_running_loop().create_future()
-            self._future.set_exception(e)
+                # The queue may be lossy towards older notifications, but the
+                # latest one (possibly the final response) is still to be
+                # delivered before the iteration ends.
+                self._pending_error = e
+            else:
+                self._future.set_exception(e)
 
         async def __anext__(self):
             f = self._future
@@ -1192,6 +1199,9 @@ class ClientObservation:
                 # a quick second future comes in in a push?
                 if f is self._future:
                     self._future = asyncio.get_running_loop().create_future()
+                    if self._pending_error is not None:
+                        self._future.set_exception(self._pending_error)
+                        self._pending_error = None
                 return result
             except (error.NotObservable, error.ObservationCancelled):
                 # only exit cleanly when the server -- right away or later --
